@@ -202,6 +202,9 @@ def run_case(case, scratch):
         return {"harness_error": f"fresh_import produced no report: rc={proc.returncode} {proc.stderr[-500:]}"}
     for p in rep["problems"]:
         failures.append({"clause": p["clause"], "sig": p["sig"], "msg": p["msg"]})
+    lazy = rep.get("lazy_models") or []
+    if lazy:  # "all pydantic models fully built" after import (a nested fragment class was not: FX-12)
+        failures.append({"clause": "incomplete_model", "sig": "lazy", "msg": f"not fully built after import: {lazy}"[:400]})
     if rep.get("all") is not None:
         try:
             with open(os.path.join(pkgdir, "__init__.py")) as fh:
@@ -220,4 +223,5 @@ def run_case(case, scratch):
         if k not in seen:
             seen.add(k)
             out.append(f)
-    return {"failures": out[:5], "units": 1, "nt": nt, "features": feats, "sample": sample}
+    return {"failures": out[:5], "units": 1, "nt": nt, "features": feats, "sample": sample,
+            "counters": {"models_completed_lazily": len(lazy)}}
